@@ -708,6 +708,15 @@ def c05_family(tier, n):
                     fs.append({**sink('watch', [f'spl{m}']), 'start_at': late})
                     out.append({**timely(scn(f'bal-listen/{speeds}/{m}/late{late}/{"shared" if shared else "plain"}', fs), quiet=900), 'balanced_listen': True})
 
+    # ... for a consumer that mixes source kinds: the start-up handshake of the synchronized source must not depend on what is listed
+    # before it (an ephemeral '?' / '??' source first, then the synchronized one whose subscription comes up late)
+    for m in ['?', '??']:
+        for jd in [{'snk<src': 200}, {'snk<src': 200, 'snk<side': 80}]:
+            for order in ['eph-first', 'sync-first']:
+                srcs = [f'side{m};main>side', 'src'] if order == 'eph-first' else ['src', f'side{m};main>side']
+                fs = [src(n, required='snk', period=10), src(4 * n, 'side', period=30), sink('snk', srcs)]
+                out.append(timely(scn(f'mixed-join/{m}/{order}/{sorted(jd.items())}', fs, join_delay=jd), quiet=700))
+
     # the load-balancing family's listener scenarios belong here as well (a '?' / '??' listener on a worker's branch, behind a worker, or on
     # a branch that has no synchronized consumer at all - such a branch must never be given a frame)
     for s_ in c07_family(tier, max(3, n - 2)):
